@@ -95,7 +95,7 @@ Definition is_io (e:hev) : bool := match e with HRead | HWrite => true | _ => fa
                           | fault-cleanup Close )   -- failure, connection closed last
    and after an injected fault nothing but the TLS layer's close-notify attempt
    (SetWriteDeadline / Write) precedes the Close. *)
-Inductive cphase := CStart | CArmed | CFaulted | CDoneOk | CClosing | CClosed.
+Inductive cphase := CStart | CArmed | CFaulted | CDoneOk | CZeroFault | CClosing | CClosed.
 
 Definition cstep (deadline early_io:bool) (p:cphase) (e:hev) : option cphase :=
   match p, e with
@@ -114,7 +114,11 @@ Definition cstep (deadline early_io:bool) (p:cphase) (e:hev) : option cphase :=
   | CClosing, HClose => Some CClosed
   | CFaulted, (HSetWDL _ | HSetDL _ | HWrite | HFail) => Some CFaulted   (* cleanup: close-notify, deadline reset *)
   | CFaulted, HClose => Some CClosed
-  | CDoneOk, HFail => Some CFaulted                    (* the final SetDeadline(zero) itself failed *)
+  | CDoneOk, HFail => Some CZeroFault                  (* a SetDeadline(zero) failed: DialContext's own final one (cleanup
+                                                          follows), or the proxy dialer's, which ignores the error ... *)
+  | CZeroFault, HSetDL false => Some CArmed            (* ... so that DialContext arms the deadline again and goes on *)
+  | CZeroFault, (HSetWDL _ | HSetDL true | HWrite | HFail) => Some CFaulted
+  | CZeroFault, HClose => Some CClosed
   | CClosed, HClose => Some CClosed                    (* Close is idempotent for the layers above *)
   | _, _ => None
   end.
